@@ -36,6 +36,7 @@ var extractors = []extractor{
 	{"WriterFacts", genWriterFacts},
 	{"ClientCfg", genClientCfg},
 	{"DescIter", genDescIter},
+	{"UnifyID", genUnifyID},
 }
 
 func main() {
